@@ -175,9 +175,20 @@ func DoScript(wrap func(http.Handler) http.Handler, req Req, preset []HV, script
 	hr := req.HTTP()
 	sp := &spy{wantReq: hr, wantW: rec, script: script}
 	wrap(sp).ServeHTTP(rec, hr)
+	hdr := rec.Final()
+	if rec.Sent == nil {
+		hdr = cloneHeader(rec.H)
+	}
+	// An outer layer (a compression wrapper adding "Vary: Accept-Encoding", a logger adding a trace id ...) adds
+	// one more value to every response header field after the wrapped handler has returned. Appending to a slice
+	// never disturbs anyone else - unless the library installed a slice whose spare capacity is shared with
+	// something it still uses, in which case later responses show the mark.
+	for k, v := range rec.H {
+		rec.H[k] = append(v, outerMark)
+	}
 	return Resp{
 		Status:  rec.FinalStatus(),
-		Hdr:     rec.Final(),
+		Hdr:     hdr,
 		Body:    string(rec.Body),
 		Called:  sp.called,
 		SameReq: sp.sameReq,
@@ -187,6 +198,9 @@ func DoScript(wrap func(http.Handler) http.Handler, req Req, preset []HV, script
 		ReqLine: sp.reqLine,
 	}
 }
+
+// outerMark is what the simulated outer layer appends to every response header field once a request is over.
+const outerMark = "Outer-Layer-Mark"
 
 func reqLine(r *http.Request) string {
 	return fmt.Sprintf("%s %s %s host=%s tls=%v", r.Method, r.RequestURI, r.Proto, r.Host, r.TLS != nil)
